@@ -17,6 +17,7 @@ import shutil
 from . import aoefdoc, specs
 from .canontools import (
     canon_diff,
+    canon_diffs,
     is_inside,
     loaded_path,
     norm_dir,
@@ -626,9 +627,9 @@ class AoefSim:
         if self.active("C18"):
             self.check_loaded_paths(entry, audio, reply["canon"], expected)
         if self.active("C01"):
-            diff = canon_diff(expected, reply["canon"])
-            if diff:
-                where, detail = diff
+            # every difference is offered to violate(): a listed known
+            # finding is skipped, the first unlisted one is reported
+            for where, detail in canon_diffs(expected, reply["canon"]):
                 which = "fixpoint" if entry.get("cycles", 0) else "field"
                 self.violate(
                     "C01",
